@@ -335,6 +335,14 @@ def ris_rule(ctx, w, S, R):
                 t = WD.strip_names(t)
                 okv = t[0] == "call" and t[1].endswith("Default>::default") and R["saved_ctx_ty"] in t[1]
                 ctx.check(okv, "S7", "%s:%s:value" % (f2, fld), "%s sets `%s` to %s instead of the default context" % (f2, fld, w.tstr(f2, t)[:80]), loc=w.stmt_loc(f2, pt))
+    # the same for the soft reset, and for every other place that replaces a saved context wholesale outside save / switch:
+    # the value is the DEFAULT context (power-on values), never something assembled from the live modes
+    reach = set(w.handler_reach("Decstr")) | set(w.handler_reach("Ris"))
+    for f2, pt, p, t in w.assign_sites(reach, lambda p: len(p) == 2 and p[0] == "arg1" and p[1] in (R["saved_ctx"], R["parked_saved_ctx"])):
+        t = WD.strip_names(t)
+        okv = t[0] == "call" and t[1].endswith("Default>::default") and R["saved_ctx_ty"] in t[1]
+        ctx.check(okv, "S7", "%s:%s:reset-value" % (f2, p[1]), "%s replaces `%s` by %s; after a reset nothing is saved, i.e. the context is the default one (power-on values), not a snapshot of the live modes" %
+                  (f2, p[1], w.tstr(f2, t)[:90]), loc=w.stmt_loc(f2, pt), sample={"fn": f2, "field": p[1]})
     ctx.floor("S7", 2, "saved contexts reset by RIS")
 
 
